@@ -151,6 +151,10 @@ func (i *NetflowV9) run() {
 		netflowV9UDPCh <- NetflowV9UDPMsg{raddr, b[:n]}
 	}
 
+	// the receive loop is the only sender: closing the channel here, and not in
+	// shutdown, can not race with a send that is still in progress
+	close(netflowV9UDPCh)
+
 }
 
 func (i *NetflowV9) shutdown() {
@@ -169,9 +173,8 @@ func (i *NetflowV9) shutdown() {
 		logger.Println("couldn't not dump template", err)
 	}
 
-	// logging and close UDP channel
+	// logging
 	logger.Println("netflow v9 has been shutdown")
-	close(netflowV9UDPCh)
 }
 
 func (i *NetflowV9) netflowV9Worker(wQuit chan struct{}) {
